@@ -27,8 +27,8 @@ from mc.engine import VERIF, Check, h64
 
 REPO = os.environ.get("VERIF_REPO", "/repo")
 SPECIMENS = Path(REPO) / "tests" / "data"
-SEEDS_QUICK = ["0", "1", "2", "3", "random"]
-SEEDS_THOROUGH = ["0", "1", "2", "3", "4", "5", "6", "7", "11", "random"]
+SEEDS_QUICK = ["0", "1", "2", "3", "4242"]
+SEEDS_THOROUGH = ["0", "1", "2", "3", "4", "5", "6", "7", "11", "4242"]
 
 GEN_INPUTS = [
     (
@@ -129,7 +129,7 @@ class C17(Check):
     rule = (
         "(i) every permutation of the tag universe (<=5 tags) as iteration order of Scaffold.fragment_tags on every decorated <=3-piece script of a "
         "C09 sub-scope with multi-tag decorations: outputs/stats/exception type identical; (ii-a) C01 sub-scopes (PretextView scripts, chain inputs, "
-        "tagged scripts at bpt 2.5/4) enumerated under PYTHONHASHSEED in {0,1,2,3,random} (+5 more thorough): per-case digests identical; (ii-b) "
+        "tagged scripts at bpt 2.5/4) enumerated under PYTHONHASHSEED in {0,1,2,3,4242} (+5 more thorough): per-case digests identical; (ii-b) "
         "pretext-to-asm on the 12 specimens and 4 generated FASTA cases x seed x cwd {/, scratch} x cache {cold, warm}: byte-identical files (scratch "
         "path masked in logs); (ii-c) index buffer {1,2,3,5,7,250000} through cache files and pipeline output; (iii) all permutations of 4 "
         "consecutive in-process invocations (3 pretext-to-asm inputs + 1 asm-format) vs fresh-process runs; (iv) FASTA vs AGP vs TPF input: same "
